@@ -51,10 +51,16 @@ RULE = ('event trains built from a ground truth (true event times t_e, b = (1+pp
         '"dense" = gaps 0.01..0.3 s (several candidates per window: exercises the used/nearest rules, duplicate b indices '
         'and a large second pass; outside the property domain, model comparison only); "dyadic" = tbin = 1/8, times on the '
         '2^-10 grid, events planted exactly at the threshold on either side (all float operations exact); "small" = 0..5 '
-        'events; "tbin" = other bin lengths.  Every train is run in both modes.  A case is non-trivial when at least one '
+        'events; "tbin" = other bin lengths.  Every train is run in both modes, under one of four call protocols (single, repeat, mutate_returns, interleave; see run_sequence).  A case is non-trivial when at least one '
         'event is unmatched or matched in the second pass or a window held several candidates; distinct by the digest '
         'of the two time vectors + mode + tbin.')
 ASSUMPTIONS = [
+    'the model is a pure function of (tsa, tsb, tbin, linear); the code is called without defensive copies and about half of the '
+    'cases run a call sequence on the SAME argument objects (three calls in a row; or calls on other trains of the same lengths and '
+    'end points plus parabolic_max interleaved between two calls): every call must return the model result of the ORIGINAL values '
+    '(index pairs; drift and mapping equal to the first call) and pass the oracle.  An argument overwritten in place is only a tag '
+    '(info_argument_modified_in_place; it triggers a follow-up call on the same objects), and the protocol that overwrites the '
+    'returned ia/ib between calls is informational (tag info_result_depends_on_returned_arrays): neither is a demand of C19',
     'delta_t (peak of scipy.signal.correlate through parabolic_max) and the intermediate fcn_a2b (np.polyfit / '
     'scipy interp1d) are inputs of the model; the harness recomputes them with the same calls as the code, a divergence '
     'shows up as an index-pair disagreement',
@@ -88,6 +94,16 @@ GRID = 2.0 ** 20
 def _sync():
     from ibldsp.utils import sync_timestamps
     return sync_timestamps
+
+
+def fresh_state():
+    """Re-import ibldsp.utils so that module-level caches start empty: a replayed call sequence must fail on its own, not
+    because of calls made earlier in the process."""
+    import importlib
+    import sys
+    m = sys.modules.get('ibldsp.utils')
+    if m is not None:
+        importlib.reload(m)
 
 
 def default_tbin():
@@ -128,10 +144,19 @@ def _raise_hang(signum, frame):
     raise DidNotTerminate()
 
 
-def run_impl(tsa, tsb, tbin, linear):
-    """-> (canonical string, fcn, drift).  The call is bounded in CPU time (the second loop is a `while`)."""
+PROTOCOLS = ('single', 'repeat', 'mutate_returns', 'interleave')
+
+
+def proto_of(key, linear):
+    """Call protocol of a generated case: three quarters of the cases exercise state carried between calls."""
+    return PROTOCOLS[(int(key) + (0 if linear else 1)) % len(PROTOCOLS)]
+
+
+def _call(A, B, tbin, linear):
+    """One bounded call on the argument OBJECTS A, B (no copies) -> (error name or None, fcn, drift, ia, ib)."""
     kw = {} if tbin is None else {'tbin': tbin}
-    import scipy.interpolate, scipy.signal  # noqa  imported by the code on first use: keep import time out of the bound
+    import scipy.interpolate  # noqa  imported by the code on first use: keep import time out of the bound
+    import scipy.signal  # noqa
     f = _sync()
     timed = threading.current_thread() is threading.main_thread()
     if timed:
@@ -140,14 +165,130 @@ def run_impl(tsa, tsb, tbin, linear):
     try:
         with warnings.catch_warnings():
             warnings.simplefilter('ignore')
-            fcn, drift, ia, ib = f(tsa.copy(), tsb.copy(), return_indices=True, linear=linear, **kw)
+            fcn, drift, ia, ib = f(A, B, return_indices=True, linear=linear, **kw)
     except Exception as e:  # noqa
-        return f'err {type(e).__name__}', None, None
+        return type(e).__name__, None, None, None, None
     finally:
         if timed:
             signal.setitimer(signal.ITIMER_VIRTUAL, 0)
             signal.signal(signal.SIGVTALRM, old)
-    return 'ok ia=' + (','.join(str(int(i)) for i in ia) or '-') + ' ib=' + (','.join(str(int(i)) for i in ib) or '-'), fcn, float(drift)
+    return None, fcn, float(drift), ia, ib
+
+
+def _canon(err, ia, ib):
+    if err is not None:
+        return f'err {err}'
+    return 'ok ia=' + (','.join(str(int(i)) for i in ia) or '-') + ' ib=' + (','.join(str(int(i)) for i in ib) or '-')
+
+
+def run_sequence(tsa, tsb, tbin, linear, proto='single'):
+    """Run the call protocol on ONE pair of argument objects and return
+         results: [(canonical string, fcn, drift)] of every call of sync_timestamps(A, B, ...) in the sequence,
+         steps:   the concrete call sequence as text,
+         purity:  None, or which argument was modified in place by which call.
+    The model is a pure function of (tsa, tsb, tbin, linear): every call of the sequence must give its result.
+      single          one call (followed by a second one on the same objects if the first modified an argument in place)
+      repeat          three calls with the same argument objects
+      mutate_returns  INFORMATIONAL ONLY (only the first call is a demand): call; overwrite the returned index arrays in
+                      place (ia[:] = -7, ib *= 2; ib += 1); call; again; call
+      interleave      call; sync_timestamps on OTHER trains of the same lengths and the same first/last event (interior
+                      events moved by 0.2 s; then tsa against tsa + 1), parabolic_max on a scratch vector, all on their own
+                      copies; call again
+    """
+    from ibldsp.utils import parabolic_max
+    A, B = np.array(tsa, dtype=float), np.array(tsb, dtype=float)       # the argument objects of every call
+    refA, refB = A.copy(), B.copy()
+    results, steps, purity = [], [], None
+
+    def main_call():
+        nonlocal purity
+        k = len(results) + 1
+        err, fcn, drift, ia, ib = _call(A, B, tbin, linear)
+        steps.append(f'r{k} = sync_timestamps(tsa, tsb, return_indices=True, linear={linear}'
+                     + ('' if tbin is None else f', tbin={tbin!r}') + ')')
+        results.append((_canon(err, ia, ib), fcn, drift))
+        if purity is None:
+            for name, X, R in (('tsa', A, refA), ('tsb', B, refB)):
+                if X.shape != R.shape or X.dtype != R.dtype or X.tobytes() != R.tobytes():
+                    purity = f'argument {name} was modified in place by call r{k}'
+        return ia, ib
+
+    ia, ib = main_call()
+    if proto == 'single' and purity is not None:
+        main_call()          # what a user observes of an overwritten argument: the next call on the same objects
+    if proto == 'repeat':
+        main_call(); main_call()
+    elif proto == 'mutate_returns':
+        for _ in range(2):
+            for nm, r in (('ia', ia), ('ib', ib)):
+                if isinstance(r, np.ndarray) and r.size and r.flags.writeable:
+                    if nm == 'ia':
+                        r[:] = -7
+                    else:
+                        r *= 2; r += 1
+            steps.append(f'r{len(results)}[2][:] = -7; r{len(results)}[3] *= 2; r{len(results)}[3] += 1   # returned index arrays, in place')
+            ia, ib = main_call()
+    elif proto == 'interleave':
+        P, Q = refA.copy(), refB.copy()
+        if P.size > 2:
+            P[1:-1] += 0.2
+        if Q.size > 2:
+            Q[1:-1] -= 0.2
+        _call(P, Q, tbin, linear)
+        steps.append('sync_timestamps(P, Q, ...)   # P, Q: copies of tsa, tsb with the interior events moved by +0.2 / -0.2 s')
+        if refA.size:
+            _call(refA.copy(), refA.copy() + 1.0, tbin, linear)
+            steps.append('sync_timestamps(tsa.copy(), tsa.copy() + 1.0, ...)')
+        try:
+            parabolic_max(np.array([0.0, 1.0, 3.0, 2.0, 0.0]))
+        except Exception:  # noqa
+            pass
+        steps.append('parabolic_max(np.array([0., 1., 3., 2., 0.]))')
+        main_call()
+    return results, steps, purity
+
+
+def demanded(results, proto):
+    """The calls of a sequence whose results are demands (for mutate_returns only the first one)."""
+    return results[:1] if proto == 'mutate_returns' else results
+
+
+def _same_map(r1, rk, tsa):
+    """Do two results of calls on equal original values carry the same drift and the same mapping?"""
+    (_, f1, d1), (_, fk, dk) = r1, rk
+    if f1 is None or fk is None:
+        return True
+    if abs(d1 - dk) > 1e-6:
+        return False
+    x = np.array(tsa[:: max(1, len(tsa) // 7)], dtype=float)
+    try:
+        with warnings.catch_warnings(), np.errstate(all='ignore'):
+            warnings.simplefilter('ignore')
+            return bool(np.allclose(np.asarray(f1(x), float), np.asarray(fk(x), float), rtol=0, atol=1e-9, equal_nan=True))
+    except Exception:  # noqa
+        return False
+
+
+def run_impl(tsa, tsb, tbin, linear, proto='single', info=None):
+    """-> (canonical string, fcn, drift) of the call protocol: the result of the first call when every demanded call of the
+    sequence returned the same index pairs, drift and mapping; otherwise a string naming the call that deviates.  An argument
+    overwritten in place / a result that changes after the returned arrays were overwritten is recorded in `info` (tags), it
+    is not a disagreement by itself: only its consequence on the RESULTS of later calls is."""
+    results, steps, purity = run_sequence(tsa, tsb, tbin, linear, proto)
+    if info is not None:
+        if purity is not None:
+            info.append('info_argument_modified_in_place')
+        if proto == 'mutate_returns' and any(r[0] != results[0][0] for r in results[1:]):
+            info.append('info_result_depends_on_returned_arrays')
+    dem = demanded(results, proto)
+    first = dem[0][0]
+    for k, r in enumerate(dem[1:], 2):
+        if r[0] != first:
+            return f'unstable: call r{k} of protocol {proto} returned {r[0]} but call r1 returned {first}', None, None
+        if not _same_map(dem[0], r, tsa):
+            return (f'unstable: call r{k} of protocol {proto} returned drift {r[2]!r} / another mapping than call r1 '
+                    f'(drift {dem[0][2]!r}) on the same arguments'), None, None
+    return dem[0]
 
 
 # ---------------------------------------------------------------------------------------------
@@ -420,10 +561,8 @@ def in_finding_class(tsa, tsb, true, tbin, linear):
     return bool(np.any(np.abs(tsa[tp[:, 0]] - delta - tsb[tp[:, 1]]) >= tb))
 
 
-def oracle(spec, linear, tbin=None, stats=None):
-    """None when C19 holds for this ground truth on the real code, else a description of what fails."""
-    tsa, tsb, true = build(spec)
-    res, fcn, drift = run_impl(tsa, tsb, tbin, linear)
+def _check_result(spec, linear, tsa, true, res, fcn, drift, stats=None):
+    """The property on ONE returned (fcn, drift, ia, ib)."""
     if res.startswith('err'):
         return f'sync_timestamps raised {res[4:]}'
     part = dict(p.split('=') for p in res.split()[1:])
@@ -451,7 +590,8 @@ def oracle(spec, linear, tbin=None, stats=None):
     th = np.r_[t[held], rs.uniform(x.min(), x.max(), 5)]
     if not linear:
         th = th[(th >= x.min()) & (th <= x.max())]
-    err = float(np.max(np.abs(np.asarray(fcn(th), float) - (alpha * th + spec['off'])))) if th.size else 0.0
+    th0 = th.copy()
+    err = float(np.max(np.abs(np.asarray(fcn(th), float) - (alpha * th0 + spec['off'])))) if th.size else 0.0
     if stats is not None:
         stats['err'] = max(stats.get('err', 0.0), err)
         stats['dppm'] = max(stats.get('dppm', 0.0), abs(drift - spec['ppm']) / bound_ppm)
@@ -459,6 +599,25 @@ def oracle(spec, linear, tbin=None, stats=None):
     if err > TOL_T:
         return f'mapping error {err:.3g} s at a held-out event (> 1 ms)'
     return None
+
+
+def oracle(spec, linear, tbin=None, stats=None, proto='single', want_steps=False, fresh=False):
+    """None when C19 holds for this ground truth on the real code for EVERY demanded call of the protocol's call sequence
+    (same argument objects throughout; results judged against the original values), else what fails and at which call."""
+    tsa, tsb, true = build(spec)
+    if fresh:
+        fresh_state()
+    results, steps, purity = run_sequence(tsa, tsb, tbin, linear, proto)
+    why = None
+    dem = demanded(results, proto)
+    for k, (res, fcn, drift) in enumerate(dem, 1):    # every result is judged against the ORIGINAL values
+        r = _check_result(spec, linear, tsa, true, res, fcn, drift, stats)
+        if r is not None:
+            why = (f'call r{k} of the sequence: ' if len(dem) > 1 else '') + r
+            if purity is not None:
+                why += f' ({purity})'
+            break
+    return (why, steps) if want_steps else why
 
 
 def spec_jsonable(spec):
@@ -504,7 +663,9 @@ def correspondence(ctx):
         tsa, tsb = c['tsa'], c['tsb']
         tb = tb0 if c['tbin'] is None else c['tbin']
         c['theta'] = tb
-        c['impl'], c['fcn'], c['drift'] = run_impl(tsa, tsb, c['tbin'], c['linear'])
+        c['proto'] = proto_of(c['key'], c['linear'])
+        c['info'] = []
+        c['impl'], c['fcn'], c['drift'] = run_impl(tsa, tsb, c['tbin'], c['linear'], c['proto'], c['info'])
         c['delta'] = None
         if tsa.size and tsb.size:
             try:
@@ -557,10 +718,10 @@ def correspondence(ctx):
         model = c['model_direct'] if 'model_direct' in c else next(a2)
         tsa, tsb, linear = c['tsa'], c['tsb'], c['linear']
         desc = {'key': c['key'], 'kind': c['kind'], 'linear': linear, 'tbin': c['tbin'], 'na': int(tsa.size), 'nb': int(tsb.size),
-                'digest': digest(c, linear)}
+                'proto': c['proto'], 'digest': digest(c, linear)}
         if c['spec'] is not None:
             desc.update(ppm=c['spec']['ppm'], off=c['spec']['off'], ja=c['spec']['ja'], jb=c['spec']['jb'])
-        tags = [c['kind'], 'linear' if linear else 'interp']
+        tags = [c['kind'], 'linear' if linear else 'interp', 'proto_' + c['proto']] + c['info']
         nontrivial = False
         exact = False
         if c.get('fa') is not None:
@@ -594,7 +755,7 @@ def correspondence(ctx):
                 ctx.known_hits['interp-extrapolation'] += 1
                 ctx.case(dict(desc, op='oracle'), nontrivial=False, tags=['oracle_skipped_known_finding_class'])
                 continue
-            r = oracle(c['spec'], linear, stats=stats)
+            r = oracle(c['spec'], linear, stats=stats, proto=c['proto'])
             d2 = dict(desc, op='oracle')
             ctx.compare('oracle (ground truth)', d2, 'ok' if r is None else r, 'ok', nontrivial=True,
                         tags=['oracle', 'oracle_' + ('linear' if linear else 'interp')])
@@ -637,7 +798,7 @@ def correspondence(ctx):
 
 
 # ---------------------------------------------------------------------------------------------
-def _shrink(spec, linear, deadline=None):
+def _shrink(spec, linear, deadline=None, proto='single'):
     """Greedy simplification of a failing ground truth that keeps it failing and inside the property's domain."""
     import time
     def fails(s):
@@ -646,7 +807,7 @@ def _shrink(spec, linear, deadline=None):
         tsa, tsb, true = build(s)
         if in_finding_class(tsa, tsb, true, None, linear):
             return None
-        return oracle(s, linear)
+        return oracle(s, linear, proto=proto, fresh=True)
     best, why = spec, fails(spec)
     if why is None:
         return None, None
@@ -688,25 +849,28 @@ def _shrink(spec, linear, deadline=None):
     return best, why
 
 
-def _report(spec, linear, why):
+def _report(spec, linear, why, proto='single'):
     tsa, tsb, true = build(spec)
-    return {'input': {'tsa': tsa.tolist(), 'tsb': tsb.tolist(), 'linear': linear, 'tbin': 'default',
+    _, steps = oracle(spec, linear, proto=proto, want_steps=True, fresh=True)
+    return {'input': {'tsa': tsa.tolist(), 'tsb': tsb.tolist(), 'linear': linear, 'tbin': 'default', 'protocol': proto,
+                      'call_sequence': ['tsa = np.array(input.tsa); tsb = np.array(input.tsb)   # the same two objects in every call'] + steps,
                       'ground_truth': spec_jsonable(spec), 'true_pairs': [list(p) for p in true]},
             'observed': why,
-            'expected': 'C19: every returned (ia, ib) pair is a true correspondence, >= 95 % of the true pairs are returned, '
-                        'fcn(t) within 1 ms of the true map at held-out events, drift within the stated tolerance of the true ppm',
-            'how': 'python: ibldsp.utils.sync_timestamps(np.array(tsa), np.array(tsb), return_indices=True, linear=linear); '
-                   'harness/props/c19.py oracle(ground_truth, linear)'}
+            'expected': 'C19, for every call r_k of the sequence: every returned (ia, ib) pair is a true correspondence, >= 95 % of the '
+                        'true pairs are returned, fcn(t) within 1 ms of the true map at held-out events, drift within the stated '
+                        'tolerance of the true ppm (judged against the values tsa, tsb had before the first call)',
+            'how': 'python (fresh interpreter): run input.call_sequence with ibldsp.utils.sync_timestamps / parabolic_max; '
+                   'harness/props/c19.py oracle(ground_truth, linear, proto=input.protocol)'}
 
 
 def search(ctx, reasons):
+    import time
     keys = []
     for m in ctx.mismatches[:300]:
         c = m['case']
         if 'key' in c and kind_of(c['key']) in DOMAIN_KINDS and (c['key'], c['linear']) not in keys:
             keys.append((c['key'], c['linear']))
     extra = [(k, lin) for k in range(ctx.n(260, 600)) if kind_of(k) in DOMAIN_KINDS for lin in (True, False)]
-    import time
     best = None
     tried = 0
     deadline = time.time() + ctx.n(150, 600)
@@ -714,20 +878,27 @@ def search(ctx, reasons):
         if time.time() > deadline and best is not None:
             break
         c = case_by_key(ctx, k)
+        proto = proto_of(k, linear)
         tried += 1
         try:
             if not in_domain(c['spec']) or in_finding_class(c['tsa'], c['tsb'], c['true'], None, linear):
                 continue
-            r = oracle(c['spec'], linear)
+            # the simplest self-contained call sequence (module state reset first) that fails
+            r = None
+            for cand in dict.fromkeys(('single', 'repeat', proto, 'interleave')):
+                r = oracle(c['spec'], linear, proto=cand, fresh=True)
+                if r is not None:
+                    proto = cand
+                    break
         except Exception as e:  # noqa
             r = f'oracle raised {type(e).__name__}: {e}'
         if r is None:
             continue
-        spec, why = _shrink(c['spec'], linear, deadline)
+        spec, why = _shrink(c['spec'], linear, deadline, proto)
         if spec is None:
             spec, why = c['spec'], r
         if best is None or len(spec['t']) < len(best[0]['t']):
-            best = (spec, linear, why)
+            best = (spec, linear, why, proto)
         if len(spec['t']) <= 40 or tried > 400:
             break
     if best:
@@ -738,7 +909,7 @@ def search(ctx, reasons):
 def replay(ctx, rep):
     gt = rep['input']['ground_truth']
     spec = {k: (np.asarray(v) if isinstance(v, list) else v) for k, v in gt.items()}
-    r = oracle(spec, rep['input']['linear'])
+    r = oracle(spec, rep['input']['linear'], proto=rep['input'].get('protocol', 'single'), fresh=True)
     print('oracle:', r)
     return r is not None
 
